@@ -7,9 +7,42 @@ Lemma upd_other {A} (f : nat -> A) i v j : j <> i -> upd f i v j = f j.
 Proof. intros H. unfold upd. apply Nat.eqb_neq in H. rewrite H. reflexivity. Qed.
 Arguments upd : simpl never.
 
+(* the timer tick of a deadline: at or after it, less than one tick later, exact in the
+   millisecond unit *)
+Lemma tick_up_ge g x : x <= tick_up g x.
+Proof.
+  unfold tick_up. destruct (g <=? 1) eqn:E; [lia|]. apply Z.leb_gt in E.
+  pose proof (Z.div_mod (x + g - 1) g ltac:(lia)).
+  pose proof (Z.mod_pos_bound (x + g - 1) g ltac:(lia)). nia.
+Qed.
+Lemma tick_up_lt g x : tick_up g x < x + Z.max 1 g.
+Proof.
+  unfold tick_up. destruct (g <=? 1) eqn:E; [lia|]. apply Z.leb_gt in E.
+  pose proof (Z.div_mod (x + g - 1) g ltac:(lia)).
+  pose proof (Z.mod_pos_bound (x + g - 1) g ltac:(lia)). nia.
+Qed.
+Lemma tick_up_exact g x : g <= 1 -> tick_up g x = x.
+Proof. intros H. unfold tick_up. apply Z.leb_le in H. rewrite H. reflexivity. Qed.
+Lemma tick_up_mono g x y : x <= y -> tick_up g x <= tick_up g y.
+Proof.
+  intros H. unfold tick_up. destruct (g <=? 1) eqn:E; [lia|]. apply Z.leb_gt in E.
+  apply Z.mul_le_mono_nonneg_r; [lia|]. apply Z.div_le_mono; lia.
+Qed.
+Arguments tick_up : simpl never.
+
+Lemma deadline_ge c i a : a + tmo c i <= deadline c i a.
+Proof. apply tick_up_ge. Qed.
+Lemma deadline_lt c i a : deadline c i a < a + tmo c i + Z.max 1 (gran c).
+Proof. apply tick_up_lt. Qed.
+Lemma deadline_exact c i a : gran c <= 1 -> deadline c i a = a + tmo c i.
+Proof. apply tick_up_exact. Qed.
+Lemma deadline_mono c i a b : a <= b -> deadline c i a <= deadline c i b.
+Proof. intros H. apply tick_up_mono. lia. Qed.
+Arguments deadline : simpl never.
+
 Definition Linv (c : cfg) (i : nat) (t : Z) (l : loc) : Prop :=
   (lcs l = Created -> linner l = INone /\ larrival l = None /\ lwoken l = false) /\
-  (forall dl, lcs l = Active dl -> exists a, larrival l = Some a /\ dl = a + tmo c i) /\
+  (forall dl, lcs l = Active dl -> exists a, larrival l = Some a /\ dl = deadline c i a) /\
   (forall a, larrival l = Some a -> a <= t /\ lcs l <> Created) /\
   (cancel c = true -> (linner l = IRunning <-> exists dl, lcs l = Active dl)) /\
   (cancel c = false -> forall dl, lcs l = Active dl -> linner l <> INone) /\
@@ -63,6 +96,15 @@ Ltac spec_inv :=
 
 Ltac fin := unfold Linv; cbn; spec_inv; inv_solve.
 
+(* impossible combinations of (future state, inner state, gate): contradiction with the invariant *)
+Ltac inv_absurd :=
+  exfalso; spec_inv;
+  repeat match goal with
+  | H : _ /\ _ |- _ => destruct H
+  | H : ?a = ?a -> _ |- _ => specialize (H eq_refl)
+  end;
+  first [congruence | firstorder congruence].
+
 (* the case analysis every statement about one poll goes through: the invariant prunes the
    combinations of (future state, inner-call state, gate) that cannot occur *)
 Ltac poll_cases c :=
@@ -74,6 +116,8 @@ Ltac poll_cases c :=
     let w0 := fresh "w0" in let a0 := fresh "a0" in let dl := fresh "dl" in
     let Ec := fresh "Ec" in let E := fresh "E" in let a := fresh "a" in let oi := fresh "oi" in
     destruct H as (H1&H2&H3&H4&H5&H6&H7&H8&H9);
+    match goal with |- context [lpoll _ ?i ?t _] =>
+      pose proof (deadline_ge c i t) end;
     destruct l as [cs0 in0 g0 w0 a0]; cbn in *;
     unfold lpoll, poll_cancel, poll_select, task_run, rx_state, finish_inner; cbn;
     destruct cs0 as [|dl| |]; cbn;
@@ -81,6 +125,8 @@ Ltac poll_cases c :=
       destruct (cancel c) eqn:Ec; destruct g0 as [[]|]; cbn;
       try destruct (_ <=? _) eqn:E; cbn
     | destruct (H2 dl eq_refl) as (a & -> & ->);
+      try match goal with |- context [deadline _ ?i a] =>
+        pose proof (deadline_ge c i a) end;
       destruct (cancel c) eqn:Ec;
       [ assert (in0 = IRunning) as -> by (apply H4; eauto);
         destruct g0 as [[]|]; cbn; try destruct (_ <=? _) eqn:E; cbn
@@ -104,8 +150,8 @@ Proof.
   intros (H1&H2&H3&H4&H5&H6&H7&H8&H9).
   destruct l as [cs0 in0 g0 w0 a0]; cbn in *. unfold lcomplete, task_run, finish_inner; cbn.
   destruct g0 as [g|]; [fin; fail|].
-  destruct (cancel c) eqn:Ec; destruct cs0 as [|dl| |]; cbn; try solve [fin];
-    destruct in0 as [| |oi|]; destruct o; cbn; fin.
+  destruct (cancel c) eqn:Ec; destruct cs0 as [|dl| |]; cbn;
+    try (destruct in0 as [| |oi|]; destruct o; cbn); fin.
 Qed.
 
 Lemma linv_advance c i t t1 l : t <= t1 -> Linv c i t l -> Linv c i t1 (ladvance t t1 l).
@@ -180,12 +226,13 @@ Proof.
     try (destruct Hc as [[Hc1 Hc2]|[Hc1 [d Hc2]]]; try discriminate;
          try (destruct Hc2 as [Hc2|[d Hc2]]; discriminate));
     spec_inv; try tauto; try congruence; auto.
-  all: try (exfalso; firstorder congruence).
+  all: try inv_absurd.
 Qed.
 
 Lemma l_timeout c i t l :
   Linv c i t l -> lgate l = None ->
-  (exists dl, lcs l = Active dl /\ dl <= t) \/ (lcs l = Created /\ tmo c i <= 0) ->
+  (exists dl, lcs l = Active dl /\ dl <= t) \/
+  (lcs l = Created /\ deadline c i t <= t) ->
   snd (lpoll c i t l) = timed_out /\ lcs (fst (lpoll c i t l)) = Done.
 Proof.
   intros H. poll_cases c; intros Hg Hc; try discriminate; auto;
@@ -194,12 +241,13 @@ Proof.
     spec_inv; try congruence.
   all: try (destruct Hc as [[d [Hc1 Hc2]]|[Hc1 Hc2]]; try discriminate;
          try (injection Hc1 as <-); lia).
-  all: try (exfalso; firstorder congruence).
+  all: try inv_absurd.
 Qed.
 
 Lemma l_pending c i t l :
   Linv c i t l -> lgate l = None ->
-  (exists dl, lcs l = Active dl /\ t < dl) \/ (lcs l = Created /\ 0 < tmo c i) ->
+  (exists dl, lcs l = Active dl /\ t < dl) \/
+  (lcs l = Created /\ t < deadline c i t) ->
   snd (lpoll c i t l) = pending /\
   exists dl, lcs (fst (lpoll c i t l)) = Active dl /\ t < dl.
 Proof.
@@ -208,7 +256,7 @@ Proof.
     try (destruct Hc as [[d [Hc1 Hc2]]|[Hc1 Hc2]]; try discriminate;
          try (injection Hc1 as <-); lia);
     spec_inv; try congruence.
-  all: try (exfalso; firstorder congruence).
+  all: try inv_absurd.
 Qed.
 
 (* both the inner result and the timer are ready *)
@@ -220,7 +268,7 @@ Proof.
   intros H. poll_cases c; intros Hc Hg Ho Hd; try discriminate;
     try (injection Hc as <-); try (injection Hg as <-); try lia; auto;
     try (exfalso; apply Ho; reflexivity); spec_inv; try congruence.
-  all: try (exfalso; firstorder congruence).
+  all: try inv_absurd.
 Qed.
 
 Lemma l_cancel_drop c i t l :
@@ -297,7 +345,7 @@ Lemma deadline_from_first_poll c evs i :
   let s := run c evs in
   (cs s i = Created -> arrival s i = None /\ inner s i = INone) /\
   (forall a, arrival s i = Some a -> a <= now s /\ cs s i <> Created) /\
-  (forall dl, cs s i = Active dl -> exists a, arrival s i = Some a /\ dl = a + tmo c i) /\
+  (forall dl, cs s i = Active dl -> exists a, arrival s i = Some a /\ dl = deadline c i a) /\
   (cs s i = Created -> arrival (step_st c s (Poll i)) i = Some (now s)) /\
   (forall e a, arrival s i = Some a -> arrival (step_st c s e) i = Some a) /\
   (forall j, step_st c s (Call j) = s).
@@ -365,7 +413,8 @@ Qed.
 Lemma timeout_now c evs i :
   let s := run c evs in
   gate s i = None ->
-  (exists dl, cs s i = Active dl /\ dl <= now s) \/ (cs s i = Created /\ tmo c i <= 0) ->
+  (exists dl, cs s i = Active dl /\ dl <= now s) \/
+  (cs s i = Created /\ deadline c i (now s) <= now s) ->
   snd (step c s (Poll i)) = timed_out /\ cs (step_st c s (Poll i)) i = Done.
 Proof.
   intros s. rewrite step_st_poll, step_poll. unf. rewrite callers_on_same. cbn [snd].
@@ -375,7 +424,8 @@ Qed.
 Lemma pending_now c evs i :
   let s := run c evs in
   gate s i = None ->
-  (exists dl, cs s i = Active dl /\ now s < dl) \/ (cs s i = Created /\ 0 < tmo c i) ->
+  (exists dl, cs s i = Active dl /\ now s < dl) \/
+  (cs s i = Created /\ now s < deadline c i (now s)) ->
   snd (step c s (Poll i)) = pending /\
   exists dl, cs (step_st c s (Poll i)) i = Active dl /\ now s < dl.
 Proof.
@@ -625,9 +675,607 @@ Proof.
 Qed.
 
 
+
+(* ---------- a pending call that is overdue, or whose inner result is there, has been woken ---------- *)
+Definition Wl (t : Z) (l : loc) : Prop :=
+  forall dl, lcs l = Active dl -> (dl <= t \/ lgate l <> None) -> lwoken l = true.
+
+Lemma wl_poll c i t l : Linv c i t l -> Wl t (fst (lpoll c i t l)).
+Proof.
+  intros H. unfold Wl. poll_cases c; intros d Hd Hp; try discriminate; try reflexivity;
+    injection Hd as <-; destruct Hp as [Hp|Hp]; try lia; try congruence.
+  all: spec_inv; try congruence.
+  all: try inv_absurd.
+Qed.
+
+Lemma wl_drop c t l : Wl t (ldrop c l).
+Proof.
+  unfold Wl. destruct l as [cs0 in0 g0 w0 a0]. unfold ldrop; cbn.
+  destruct cs0; cbn; try destruct (cancel c); cbn; intros; discriminate.
+Qed.
+
+Lemma wl_complete c i t l o : Linv c i t l -> Wl t l -> Wl t (lcomplete c l o).
+Proof.
+  intros (H1&H2&H3&H4&H5&H6&H7&H8&H9) HW.
+  destruct l as [cs0 in0 g0 w0 a0]; unfold Wl in *; cbn in *.
+  unfold lcomplete, task_run, finish_inner; cbn.
+  destruct g0 as [g|]; [exact HW|].
+  destruct (cancel c) eqn:Ec.
+  - destruct cs0 as [|dl| |]; cbn; intros d Hc Hp; try discriminate. reflexivity.
+  - destruct in0 as [| |oi|]; cbn.
+    + destruct cs0 as [|dl| |]; cbn; intros d Hc Hp; try discriminate.
+      exfalso. apply (H5 eq_refl dl eq_refl). reflexivity.
+    + destruct o; cbn; destruct cs0 as [|dl| |]; cbn; intros d Hc Hp; try discriminate; reflexivity.
+    + destruct (H7 oi eq_refl). discriminate.
+    + specialize (H8 eq_refl eq_refl). discriminate.
+Qed.
+
+Lemma wl_advance t0 t1 l : Wl t0 l -> Wl t1 (ladvance t0 t1 l).
+Proof.
+  intros HW. destruct l as [cs0 in0 g0 w0 a0]; unfold Wl in *; cbn in *.
+  intros dl Hc Hp. subst cs0. unfold timer_fires; cbn.
+  destruct (Z_le_gt_dec dl t0) as [Hle|Hgt].
+  - rewrite (HW dl eq_refl (or_introl Hle)). reflexivity.
+  - destruct Hp as [Hp|Hp].
+    + replace (t0 <? dl) with true by (symmetry; apply Z.ltb_lt; lia).
+      replace (dl <=? t1) with true by (symmetry; apply Z.leb_le; lia).
+      apply Bool.orb_true_r.
+    + rewrite (HW dl eq_refl (or_intror Hp)). reflexivity.
+Qed.
+
+Definition WInv (s : st) : Prop := forall i, Wl (now s) (callers s i).
+
+Lemma winv_step c s e : Inv c s -> WInv s -> WInv (step_st c s e).
+Proof.
+  intros HI HW. unfold step_st. destruct e as [j|j|j|d|j o].
+  - exact HW.
+  - rewrite step_poll. cbn [fst]. intros i. cbn [now on].
+    destruct (Nat.eq_dec i j) as [->|Hne].
+    + rewrite callers_on_same. apply wl_poll. apply HI.
+    + rewrite callers_on_other by exact Hne. apply HW.
+  - cbn [step fst]. intros i. cbn [now on]. destruct (Nat.eq_dec i j) as [->|Hne].
+    + rewrite callers_on_same. apply wl_drop.
+    + rewrite callers_on_other by exact Hne. apply HW.
+  - cbn [step fst]. intros i. cbn [now callers]. apply wl_advance. apply HW.
+  - cbn [step fst]. intros i. cbn [now on]. destruct (Nat.eq_dec i j) as [->|Hne].
+    + rewrite callers_on_same. apply (wl_complete c j); [apply HI|apply HW].
+    + rewrite callers_on_other by exact Hne. apply HW.
+Qed.
+
+Lemma winv_run c evs : WInv (run c evs).
+Proof.
+  assert (H : Inv c (run c evs) /\ WInv (run c evs)).
+  { unfold run. apply (fold_left_inv (step_st c) (fun s => Inv c s /\ WInv s)).
+    - split; [apply inv_init|]. intros i dl Hc. discriminate.
+    - intros s e [HI HW]. split; [apply inv_step; exact HI|apply winv_step; assumption]. }
+  apply H.
+Qed.
+
+Lemma overdue_or_ready_is_woken c evs i dl :
+  let s := run c evs in
+  cs s i = Active dl -> (dl <= now s \/ gate s i <> None) -> woken s i = true.
+Proof. intros s. unf. apply (winv_run c evs i). Qed.
+
+(* ---------- a call future only disappears by being dropped by its caller ---------- *)
+Lemma lpoll_not_dropped c i t l : lcs (fst (lpoll c i t l)) = Dropped -> lcs l = Dropped.
+Proof.
+  destruct l as [cs0 in0 g0 w0 a0].
+  unfold lpoll, poll_cancel, poll_select, task_run, rx_state, finish_inner; cbn.
+  destruct cs0 as [|dl| |]; cbn; try (intros; congruence);
+    destruct (cancel c); destruct g0 as [[]|]; cbn; try destruct (_ <=? _); cbn;
+    try discriminate; destruct in0 as [| |[]|]; cbn; try destruct (_ <=? _); cbn; discriminate.
+Qed.
+
+Lemma lcomplete_cs c l o : lcs (lcomplete c l o) = lcs l.
+Proof.
+  destruct l as [cs0 in0 g0 w0 a0]. unfold lcomplete, task_run, finish_inner; cbn.
+  destruct g0; [reflexivity|]. destruct (cancel c); cbn.
+  - destruct cs0; reflexivity.
+  - destruct in0; try reflexivity. destruct o; cbn; destruct cs0; reflexivity.
+Qed.
+
+Lemma step_dropped c s e i :
+  cs (step_st c s e) i = Dropped -> cs s i = Dropped \/ e = Drop i.
+Proof.
+  unfold step_st. destruct e as [j|j|j|d|j o]; unf.
+  - auto.
+  - rewrite step_poll. cbn [fst]. destruct (Nat.eq_dec i j) as [->|Hne].
+    + rewrite callers_on_same. intros H. left. eapply lpoll_not_dropped. exact H.
+    + rewrite callers_on_other by exact Hne. auto.
+  - cbn [step fst]. destruct (Nat.eq_dec i j) as [->|Hne]; [auto|].
+    rewrite callers_on_other by exact Hne. auto.
+  - cbn [step fst callers]. destruct (l_advance_core (now s) (now s + Z.max 0 d) (callers s i)) as (->&_). auto.
+  - cbn [step fst]. destruct (Nat.eq_dec i j) as [->|Hne].
+    + rewrite callers_on_same, lcomplete_cs. auto.
+    + rewrite callers_on_other by exact Hne. auto.
+Qed.
+
+Lemma dropped_only_by_drop c i evs : forall s,
+  cs (fold_left (step_st c) evs s) i = Dropped -> cs s i = Dropped \/ In (Drop i) evs.
+Proof.
+  induction evs as [|e t IH]; intros s H; cbn [fold_left] in H; [auto|].
+  destruct (IH _ H) as [H1|H1].
+  - destruct (step_dropped c s e i H1) as [H2| ->]; [auto|right; left; reflexivity].
+  - right. right. exact H1.
+Qed.
+
+Lemma run_dropped c evs i : cs (run c evs) i = Dropped -> In (Drop i) evs.
+Proof.
+  intros H. destruct (dropped_only_by_drop c i evs init H) as [H1|H1]; [discriminate|exact H1].
+Qed.
+
+(* ---------- schedules ---------- *)
+(* the caller is polled whenever it has been woken: every event after which caller i's wake flag
+   is up is followed, if by anything, by a poll of caller i *)
+Definition polled_when_woken (c : cfg) (i : nat) (evs : list ev) : Prop :=
+  forall pre e e' post, evs = pre ++ e :: e' :: post ->
+    woken (run c (pre ++ [e])) i = true -> e' = Poll i.
+
+(* ... and nothing is left to do for it at the end *)
+Definition prompt (c : cfg) (i : nat) (evs : list ev) : Prop :=
+  polled_when_woken c i evs /\ woken (run c evs) i = false.
+
+(* the clock stops at the deadline of caller i: no Advance jumps over it (the discrete-event
+   rendering of continuous time: somebody gets to run at that instant) *)
+Definition punctual (c : cfg) (i : nat) (evs : list ev) : Prop :=
+  forall pre d post dl, evs = pre ++ Advance d :: post ->
+    cs (run c pre) i = Active dl -> now (run c pre) < dl -> now (run c pre) + d <= dl.
+
+Lemma pww_prefix c i evs1 evs2 : polled_when_woken c i (evs1 ++ evs2) -> polled_when_woken c i evs1.
+Proof.
+  intros H pre e e' post Heq Hw. apply (H pre e e' (post ++ evs2)); [|exact Hw].
+  rewrite Heq. rewrite <- app_assoc. reflexivity.
+Qed.
+
+Lemma punctual_prefix c i evs1 evs2 : punctual c i (evs1 ++ evs2) -> punctual c i evs1.
+Proof.
+  intros H pre d post dl Heq. apply (H pre d (post ++ evs2) dl).
+  rewrite Heq. rewrite <- app_assoc. reflexivity.
+Qed.
+
+Lemma run_snoc c evs e : run c (evs ++ [e]) = step_st c (run c evs) e.
+Proof. rewrite run_app. reflexivity. Qed.
+
+(* what one event does to the future of caller i and to the clock *)
+Lemma step_cs_cases c s e i dl :
+  Inv c s ->
+  cs (step_st c s e) i = Active dl ->
+  (e = Poll i /\ now s < dl /\ now (step_st c s e) = now s) \/
+  (cs s i = Active dl /\ e <> Poll i /\
+     ((exists d, e = Advance d /\ now (step_st c s e) = now s + Z.max 0 d) \/
+      ((forall d, e <> Advance d) /\ now (step_st c s e) = now s))).
+Proof.
+  intros HI. unfold step_st. destruct e as [j|j|j|d|j o]; unf.
+  - cbn [step fst]. intros H. right. repeat split; try discriminate; auto.
+    right. split; [intros; discriminate|reflexivity].
+  - rewrite step_poll. cbn [fst now on]. destruct (Nat.eq_dec i j) as [->|Hne].
+    + rewrite callers_on_same. intros H. left. split; [reflexivity|]. split; [|reflexivity].
+      pose proof (proj2 HI j) as HL. revert H. clear HI.
+      poll_cases c; intros Hd; try discriminate; injection Hd as <-; lia.
+    + rewrite callers_on_other by exact Hne. intros H. right. repeat split; auto.
+      * intros Heq. injection Heq as ->. congruence.
+      * right. split; [intros; discriminate|reflexivity].
+  - cbn [step fst now on]. destruct (Nat.eq_dec i j) as [->|Hne].
+    + rewrite callers_on_same. destruct (callers s j) as [cs0 in0 g0 w0 a0]. unfold ldrop; cbn.
+      destruct cs0; cbn; try destruct (cancel c); cbn; discriminate.
+    + rewrite callers_on_other by exact Hne. intros H. right. repeat split; try discriminate; auto.
+      right. split; [intros; discriminate|reflexivity].
+  - cbn [step fst now callers].
+    destruct (l_advance_core (now s) (now s + Z.max 0 d) (callers s i)) as (->&_).
+    intros H. right. repeat split; try discriminate; auto. left. exists d. split; reflexivity.
+  - cbn [step fst now on]. destruct (Nat.eq_dec i j) as [->|Hne].
+    + rewrite callers_on_same, lcomplete_cs. intros H. right. repeat split; try discriminate; auto.
+      right. split; [intros; discriminate|reflexivity].
+    + rewrite callers_on_other by exact Hne. intros H. right. repeat split; try discriminate; auto.
+      right. split; [intros; discriminate|reflexivity].
+Qed.
+
+(* under such a schedule a pending call is never past its deadline *)
+Lemma pending_not_overdue c i evs :
+  polled_when_woken c i evs -> punctual c i evs ->
+  forall dl, cs (run c evs) i = Active dl -> now (run c evs) <= dl.
+Proof.
+  induction evs as [|e evs IH] using rev_ind; intros Hp Hq dl Hc.
+  - discriminate.
+  - rewrite run_snoc in *.
+    pose proof (IH (pww_prefix _ _ _ _ Hp) (punctual_prefix _ _ _ _ Hq)) as IH'.
+    destruct (step_cs_cases c (run c evs) e i dl (inv_run c evs) Hc)
+      as [(-> & Hlt & ->)|(Hc0 & Hne & [(d & -> & ->)|(Hna & ->)])].
+    + lia.
+    + specialize (IH' dl Hc0).
+      destruct (Z_lt_le_dec (now (run c evs)) dl) as [Hlt|Hge].
+      * pose proof (Hq evs d [] dl eq_refl Hc0 Hlt). lia.
+      * (* the clock had reached the deadline: the caller was woken and must have been polled *)
+        exfalso.
+        pose proof (overdue_or_ready_is_woken c evs i dl Hc0 (or_introl Hge)) as Hw.
+        destruct evs as [|e0 evs0] using rev_ind; [discriminate|].
+        assert (Advance d = Poll i) as Habs; [|discriminate].
+        apply (Hp evs0 e0 (Advance d) []); [rewrite <- app_assoc; reflexivity|exact Hw].
+    + apply IH'. exact Hc0.
+Qed.
+
+Lemma arrival_of_active c evs i dl :
+  cs (run c evs) i = Active dl -> exists a, arrival (run c evs) i = Some a /\ dl = deadline c i a.
+Proof. apply (deadline_from_first_poll c evs i). Qed.
+
+(* the composite: once the deadline has been reached (or the inner result is there) a call that
+   has been polled at least once and not cancelled is either resolved or has a wake-up pending *)
+Lemma resolved_or_woken c evs i a :
+  let s := run c evs in
+  arrival s i = Some a -> ~ In (Drop i) evs ->
+  (deadline c i a <= now s \/ gate s i <> None) ->
+  cs s i = Done \/ (cs s i = Active (deadline c i a) /\ woken s i = true).
+Proof.
+  intros s Ha Hnd Hp.
+  destruct (deadline_from_first_poll c evs i) as (_ & H2 & H3 & _). fold s in H2, H3.
+  destruct (cs s i) as [|dl| |] eqn:Ec.
+  - exfalso. apply (proj2 (H2 a Ha)). reflexivity.
+  - right. destruct (H3 dl eq_refl) as (a' & Ha' & ->). assert (a' = a) as -> by congruence.
+    split; [reflexivity|]. apply (overdue_or_ready_is_woken c evs i (deadline c i a)); assumption.
+  - left. reflexivity.
+  - exfalso. apply Hnd. apply (run_dropped c evs i). exact Ec.
+Qed.
+
+Lemma by_deadline c evs i a :
+  let s := run c evs in
+  prompt c i evs -> arrival s i = Some a -> ~ In (Drop i) evs ->
+  (deadline c i a <= now s \/ gate s i <> None) -> cs s i = Done.
+Proof.
+  intros s [_ Hw] Ha Hnd Hp.
+  destruct (resolved_or_woken c evs i a Ha Hnd Hp) as [H|[_ H]]; [exact H|].
+  unfold s in H. rewrite Hw in H. discriminate.
+Qed.
+
+(* conversely a call that is still pending with no wake-up outstanding is rightly so *)
+Lemma pending_is_justified c evs i dl :
+  let s := run c evs in
+  cs s i = Active dl -> woken s i = false -> now s < dl /\ gate s i = None.
+Proof.
+  intros s Hc Hw.
+  destruct (Z_lt_le_dec (now s) dl) as [Hlt|Hge].
+  - split; [exact Hlt|]. destruct (gate s i) eqn:Eg; [|reflexivity].
+    assert (woken s i = true) as Hw'; [|congruence].
+    apply (overdue_or_ready_is_woken c evs i dl Hc). right. fold s. rewrite Eg. discriminate.
+  - assert (woken s i = true) as Hw'; [|congruence].
+    apply (overdue_or_ready_is_woken c evs i dl Hc). left. exact Hge.
+Qed.
+
+(* ---------- exact instants under a prompt, punctual schedule ---------- *)
+Lemma l_timeout_inv c i t l :
+  Linv c i t l -> r (snd (lpoll c i t l)) = 3 -> lgate l <> Some OPanic ->
+  (forall o, linner l <> IFinished o) /\ (lcs l <> Created -> lgate l = None) /\
+  exists a, larrival (fst (lpoll c i t l)) = Some a /\ deadline c i a <= t.
+Proof.
+  intros H. poll_cases c; intros Hr Hg; try discriminate; try congruence;
+    try (split; [intros; discriminate|split; [congruence|eexists; split; [reflexivity|lia]]]).
+  all: spec_inv; try congruence.
+  all: try (exfalso; apply Hg; auto; fail).
+  all: try inv_absurd.
+Qed.
+
+Lemma timeout_exactly_at_deadline c evs i :
+  let s := run c evs in
+  polled_when_woken c i evs -> punctual c i evs ->
+  r (snd (step c s (Poll i))) = 3 -> gate s i <> Some OPanic ->
+  exists a, arrival (step_st c s (Poll i)) i = Some a /\
+    now s = Z.max a (deadline c i a) /\
+    (forall o, inner s i <> IFinished o) /\ (cs s i <> Created -> gate s i = None).
+Proof.
+  intros s Hp Hq Hr Hg.
+  pose proof (linv_run c evs i) as HL. fold s in HL.
+  rewrite step_poll in Hr. cbn [snd] in Hr.
+  destruct (l_timeout_inv c i _ _ HL Hr Hg) as (Hin & Hgn & a & Ha & Hd).
+  exists a. rewrite step_st_poll. unf. rewrite callers_on_same.
+  split; [exact Ha|]. split; [|split; assumption].
+  destruct (deadline_from_first_poll c evs i) as (_ & H2 & H3 & H4 & H5 & _). fold s in H2, H3, H4, H5.
+  destruct (cs s i) as [|dl| |] eqn:Ec.
+  - specialize (H4 eq_refl). rewrite step_st_poll in H4. unf. rewrite callers_on_same in H4.
+    assert (a = now s) as -> by congruence. lia.
+  - destruct (H3 dl eq_refl) as (a' & Ha' & ->).
+    pose proof (H5 (Poll i) a' Ha') as H6. rewrite step_st_poll in H6. unf.
+    rewrite callers_on_same in H6. assert (a' = a) as -> by congruence.
+    pose proof (pending_not_overdue c i evs Hp Hq _ Ec). fold s in H.
+    destruct (H2 a Ha'). lia.
+  - exfalso. revert Hr. unf. destruct (callers s i) as [cs0 in0 g0 w0 a0]. cbn in Ec. subst cs0.
+    unfold lpoll; cbn. discriminate.
+  - exfalso. revert Hr. unf. destruct (callers s i) as [cs0 in0 g0 w0 a0]. cbn in Ec. subst cs0.
+    unfold lpoll; cbn. discriminate.
+Qed.
+
+(* a pending call whose inner call has completed resolves at its next poll (any outcome) *)
+Lemma l_ready_resolves c i t l dl :
+  Linv c i t l -> lcs l = Active dl -> lgate l <> None -> lcs (fst (lpoll c i t l)) = Done.
+Proof.
+  intros H. poll_cases c; intros Hc Hg; try discriminate; try congruence; try reflexivity.
+  all: spec_inv; try congruence.
+  all: try inv_absurd.
+Qed.
+
+(* a poll that returns the inner result found the inner call completed *)
+Lemma l_result_needs_gate c i t l :
+  Linv c i t l -> (r (snd (lpoll c i t l)) = 1 \/ r (snd (lpoll c i t l)) = 2) ->
+  (lcs l = Created \/ exists dl, lcs l = Active dl) /\ (lcs l <> Created -> lgate l <> None).
+Proof.
+  intros H. poll_cases c; intros [Hr|Hr]; try discriminate;
+    (split; [first [left; reflexivity|right; eexists; reflexivity]|intros _; try discriminate]).
+  all: spec_inv; try congruence.
+  all: try inv_absurd.
+Qed.
+
+Lemma gate_set_only_by_complete c s e i :
+  gate s i = None -> gate (step_st c s e) i <> None -> exists o, e = Complete i o.
+Proof.
+  unfold step_st. destruct e as [j|j|j|d|j o]; unf; intros Hg.
+  - cbn [step fst]. congruence.
+  - rewrite step_poll. cbn [fst]. destruct (Nat.eq_dec i j) as [->|Hne].
+    + rewrite callers_on_same. destruct (callers s j) as [cs0 in0 g0 w0 a0]. cbn in Hg. subst g0.
+      unfold lpoll, poll_cancel, poll_select, task_run, rx_state, finish_inner; cbn.
+      destruct cs0 as [|dl| |]; cbn; destruct (cancel c); cbn; try destruct (_ <=? _); cbn;
+        try congruence; destruct in0 as [| |[]|]; cbn; try destruct (_ <=? _); cbn; congruence.
+    + rewrite callers_on_other by exact Hne. congruence.
+  - cbn [step fst]. destruct (Nat.eq_dec i j) as [->|Hne].
+    + rewrite callers_on_same. destruct (callers s j) as [cs0 in0 g0 w0 a0]. cbn in Hg. subst g0.
+      unfold ldrop; cbn. destruct cs0; cbn; try destruct (cancel c); cbn; congruence.
+    + rewrite callers_on_other by exact Hne. congruence.
+  - cbn [step fst callers].
+    destruct (l_advance_core (now s) (now s + Z.max 0 d) (callers s i)) as (_&_&->&_). congruence.
+  - cbn [step fst]. destruct (Nat.eq_dec i j) as [->|Hne].
+    + intros _. exists o. reflexivity.
+    + rewrite callers_on_other by exact Hne. congruence.
+Qed.
+
+Lemma poll_keeps_gate c s i : gate (step_st c s (Poll i)) i = gate s i.
+Proof.
+  rewrite step_st_poll. unf. rewrite callers_on_same.
+  destruct (callers s i) as [cs0 in0 g0 w0 a0].
+  unfold lpoll, poll_cancel, poll_select, task_run, rx_state, finish_inner; cbn.
+  destruct cs0 as [|dl| |]; cbn; destruct (cancel c); cbn; destruct g0 as [[]|]; cbn;
+    try destruct (_ <=? _); cbn; try reflexivity; destruct in0 as [| |[]|]; cbn;
+    try destruct (_ <=? _); reflexivity.
+Qed.
+
+(* under prompt polling the inner result is handed over by the poll that immediately follows the
+   completion event - no time passes in between -, or, when the inner call was completed before
+   the future was first polled, by the first poll (cancel mode) / by the poll right after the
+   first poll (non-cancel mode: the spawned task runs after the first poll) *)
+Lemma result_at_once c evs i :
+  let s := run c evs in
+  polled_when_woken c i (evs ++ [Poll i]) ->
+  (r (snd (step c s (Poll i))) = 1 \/ r (snd (step c s (Poll i))) = 2) ->
+  cs s i = Created \/
+  (exists evs' o, evs = evs' ++ [Complete i o] /\ gate (run c evs') i = None /\
+                  now (run c evs') = now s) \/
+  (exists evs', evs = evs' ++ [Poll i] /\ cs (run c evs') i = Created /\ now (run c evs') = now s).
+Proof.
+  intros s Hp Hr.
+  pose proof (linv_run c evs i) as HL. fold s in HL.
+  rewrite step_poll in Hr. cbn [snd] in Hr.
+  destruct (l_result_needs_gate c i _ _ HL Hr) as [[Hc|[dl Hc]] Hg]; [left; exact Hc|].
+  assert (Hgs : gate s i <> None) by (unf; apply Hg; congruence).
+  right. unfold s in *. clear s.
+  destruct evs as [|e evs'] using rev_ind; [discriminate|]. clear IHevs'.
+  rewrite run_snoc in *.
+  set (s' := run c evs') in *.
+  destruct (step_cs_cases c s' e i dl (inv_run c evs') Hc)
+    as [(-> & Hlt & Hn)|(Hc0 & Hne & Hnow)].
+  - (* the last event was a poll of this caller *)
+    right. exists evs'. split; [reflexivity|]. split; [|symmetry; exact Hn].
+    destruct (cs s' i) as [|dl'| |] eqn:Ec'; [exact Ec'| |exfalso|exfalso].
+    + exfalso. rewrite poll_keeps_gate in Hgs.
+      pose proof (l_ready_resolves c i _ _ dl' (linv_run c evs' i) Ec' Hgs) as Hd.
+      rewrite step_st_poll in Hc. unf. rewrite callers_on_same in Hc. fold s' in Hd. congruence.
+    + rewrite step_st_poll in Hc. unf. rewrite callers_on_same in Hc.
+      destruct (callers s' i) as [cs0 in0 g0 w0 a0]. cbn in Ec'. subst cs0.
+      unfold lpoll in Hc; cbn in Hc. discriminate.
+    + rewrite step_st_poll in Hc. unf. rewrite callers_on_same in Hc.
+      destruct (callers s' i) as [cs0 in0 g0 w0 a0]. cbn in Ec'. subst cs0.
+      unfold lpoll in Hc; cbn in Hc. discriminate.
+  - left. destruct (gate s' i) eqn:Eg.
+    + (* the result had been there before: the caller was woken, so this event is its poll *)
+      exfalso. apply Hne.
+      assert (Hw : woken s' i = true).
+      { apply (overdue_or_ready_is_woken c evs' i dl Hc0). right. fold s'. congruence. }
+      destruct evs' as [|e0 evs0] using rev_ind; [discriminate|].
+      apply (Hp evs0 e0 e [Poll i]); [rewrite <- !app_assoc; reflexivity|exact Hw].
+    + destruct (gate_set_only_by_complete c s' e i Eg Hgs) as [o ->].
+      exists evs', o. split; [reflexivity|]. split; [exact Eg|].
+      destruct Hnow as [(d & Hd & _)|(_ & Hn)]; [discriminate|symmetry; exact Hn].
+Qed.
+
+(* cancel mode: no inner call outlives its deadline under a prompt, punctual schedule; in any
+   schedule an inner call that is alive with no wake-up outstanding is before its deadline *)
+Lemma cancel_no_inner_after_deadline c evs i :
+  let s := run c evs in
+  cancel c = true -> inner s i = IRunning ->
+  exists a, arrival s i = Some a /\ cs s i = Active (deadline c i a) /\
+    (woken s i = false -> now s < deadline c i a) /\
+    (polled_when_woken c i evs -> punctual c i evs -> now s <= deadline c i a).
+Proof.
+  intros s Hc Hi.
+  destruct (cancel_drops c evs i Hc) as (H1 & _). fold s in H1.
+  destruct (proj1 H1 Hi) as [dl Hd].
+  destruct (arrival_of_active c evs i dl Hd) as (a & Ha & ->).
+  exists a. split; [exact Ha|]. split; [exact Hd|]. split.
+  - intros Hw. apply (pending_is_justified c evs i _ Hd Hw).
+  - intros Hp Hq. apply (pending_not_overdue c i evs Hp Hq _ Hd).
+Qed.
+
+(* ---------- the trace printed by run_script is the sequence of observations of `step` ---------- *)
+Lemma run_evs_app c total evs1 : forall s evs2,
+  run_evs c total s (evs1 ++ evs2) =
+  run_evs c total s evs1 ++ run_evs c total (fold_left (step_st c) evs1 s) evs2.
+Proof.
+  induction evs1 as [|e t IH]; intros s evs2; [reflexivity|].
+  cbn [app run_evs fold_left]. unfold step_st at 2. destruct (step c s e) as [s' o]. cbn [fst app].
+  rewrite IH. reflexivity.
+Qed.
+
+Lemma run_evs_length c total evs : forall s, length (run_evs c total s evs) = (4 * length evs)%nat.
+Proof.
+  induction evs as [|e t IH]; intros s; [reflexivity|].
+  cbn [run_evs]. destruct (step c s e) as [s' o]. rewrite app_length, IH. cbn [length]. lia.
+Qed.
+
+Lemma trace_is_run c total pre e rest :
+  let s := run c pre in
+  firstn 4 (skipn (4 * length pre) (run_evs c total init (pre ++ e :: rest))) =
+  [r (snd (step c s e)); val (snd (step c s e));
+   wake_mask (run c (pre ++ [e])) total; inner_vec (run c (pre ++ [e])) total].
+Proof.
+  intros s. rewrite run_evs_app. fold (run c pre). fold s.
+  rewrite skipn_app, run_evs_length, Nat.sub_diag, skipn_all2 by (rewrite run_evs_length; lia).
+  cbn [app skipn run_evs]. rewrite run_snoc. fold s. unfold step_st.
+  destruct (step c s e) as [s' o]. reflexivity.
+Qed.
+
+Lemma script_trace_is_run sc pre e rest :
+  let c := cfg_of sc in let s := run c pre in
+  events_of sc = pre ++ e :: rest ->
+  firstn 4 (skipn (4 * length pre) (run_script sc)) =
+  [r (snd (step c s e)); val (snd (step c s e));
+   wake_mask (run c (pre ++ [e])) (callers_of sc); inner_vec (run c (pre ++ [e])) (callers_of sc)].
+Proof. intros c s H. unfold run_script. rewrite H. apply trace_is_run. Qed.
+
+(* ---------- arbitrary schedules: polls of this caller allowed in between ---------- *)
+Lemma l_pending_keeps c i t l dl :
+  Linv c i t l -> lcs l = Active dl -> lgate l = None -> t < dl ->
+  snd (lpoll c i t l) = pending /\ lcs (fst (lpoll c i t l)) = Active dl /\
+  lgate (fst (lpoll c i t l)) = None.
+Proof.
+  intros H. poll_cases c; intros Hc Hg Ht; try discriminate; try (injection Hc as <-); try lia;
+    try (repeat split; reflexivity).
+  all: spec_inv; try congruence.
+  all: try inv_absurd.
+Qed.
+
+Lemma step_done c s e i : cs s i = Done -> cs (step_st c s e) i = Done.
+Proof.
+  unfold step_st. destruct e as [j|j|j|d|j o]; unf; intros H.
+  - exact H.
+  - rewrite step_poll. cbn [fst]. destruct (Nat.eq_dec i j) as [->|Hne].
+    + rewrite callers_on_same. destruct (callers s j) as [cs0 in0 g0 w0 a0]. cbn in H. subst cs0.
+      reflexivity.
+    + rewrite callers_on_other by exact Hne. exact H.
+  - cbn [step fst]. destruct (Nat.eq_dec i j) as [->|Hne].
+    + rewrite callers_on_same. destruct (callers s j) as [cs0 in0 g0 w0 a0]. cbn in H. subst cs0.
+      reflexivity.
+    + rewrite callers_on_other by exact Hne. exact H.
+  - cbn [step fst callers]. destruct (l_advance_core (now s) (now s + Z.max 0 d) (callers s i)) as (->&_).
+    exact H.
+  - cbn [step fst]. destruct (Nat.eq_dec i j) as [->|Hne].
+    + rewrite callers_on_same, lcomplete_cs. exact H.
+    + rewrite callers_on_other by exact Hne. exact H.
+Qed.
+
+Lemma done_stays c i evs : forall s, cs s i = Done -> cs (fold_left (step_st c) evs s) i = Done.
+Proof.
+  induction evs as [|e t IH]; intros s H; [exact H|]. cbn [fold_left]. apply IH. apply step_done. exact H.
+Qed.
+
+Lemma ev_eq_poll (e : ev) (i : nat) : {e = Poll i} + {e <> Poll i}.
+Proof.
+  destruct e as [j|j|j|d|j o]; try (right; discriminate).
+  destruct (Nat.eq_dec j i) as [->|H]; [left; reflexivity|right; congruence].
+Qed.
+
+Lemma run_cons_app c evs1 e t : run c (evs1 ++ e :: t) = run c ((evs1 ++ [e]) ++ t).
+Proof. rewrite <- app_assoc. reflexivity. Qed.
+
+(* inner call never completing / not completing: over ANY schedule of polls and other events the call
+   stays pending (every poll before the deadline answers Pending) until its first poll at/after the
+   deadline, which answers Timeout; nothing else resolves it *)
+Lemma timeout_any_schedule c i dl evs2 : forall evs1,
+  cs (run c evs1) i = Active dl -> gate (run c evs1) i = None ->
+  (forall e, In e evs2 -> e <> Drop i /\ forall o, e <> Complete i o) ->
+  let s2 := run c (evs1 ++ evs2) in
+  (cs s2 i = Active dl /\ gate s2 i = None) \/
+  (exists p q, evs2 = p ++ Poll i :: q /\ dl <= now (run c (evs1 ++ p)) /\
+     snd (step c (run c (evs1 ++ p)) (Poll i)) = timed_out /\ cs s2 i = Done).
+Proof.
+  induction evs2 as [|e t IH]; intros evs1 Hc Hg Hq s2; unfold s2.
+  - left. rewrite app_nil_r. split; assumption.
+  - destruct (Hq e (or_introl eq_refl)) as [Hnd Hnc].
+    assert (Hq' : forall e', In e' t -> e' <> Drop i /\ forall o, e' <> Complete i o)
+      by (intros e' Hin; apply Hq; right; exact Hin).
+    rewrite run_cons_app.
+    assert (Hstep : (cs (run c (evs1 ++ [e])) i = Active dl /\ gate (run c (evs1 ++ [e])) i = None) \/
+                    (e = Poll i /\ dl <= now (run c evs1) /\
+                     snd (step c (run c evs1) (Poll i)) = timed_out /\
+                     cs (run c (evs1 ++ [e])) i = Done)).
+    { rewrite run_snoc. destruct (ev_eq_poll e i) as [->|Hne].
+      - destruct (Z_lt_le_dec (now (run c evs1)) dl) as [Hlt|Hge].
+        + left. rewrite step_st_poll. unf. rewrite callers_on_same.
+          destruct (l_pending_keeps c i _ _ dl (linv_run c evs1 i) Hc Hg Hlt) as (_ & H1 & H2).
+          split; assumption.
+        + right. split; [reflexivity|]. split; [exact Hge|].
+          apply (timeout_now c evs1 i Hg). left. exists dl. split; assumption.
+      - left. destruct (quiet_step c (run c evs1) e i Hnd Hne (or_intror Hnc)) as [Hcore _].
+        unfold core in Hcore. injection Hcore as H1 _ H3 _. unf. split; congruence. }
+    destruct Hstep as [[Hc' Hg']|(-> & Hge & Hto & Hd)].
+    + destruct (IH (evs1 ++ [e]) Hc' Hg' Hq') as [Hl|(p & q & -> & Hp1 & Hp2 & Hp3)]; [left; exact Hl|].
+      right. exists (e :: p), q. split; [reflexivity|].
+      rewrite <- app_assoc in Hp1, Hp2. cbn [app] in Hp1, Hp2. repeat split; assumption.
+    + right. exists [], t. split; [reflexivity|]. rewrite app_nil_r. repeat split; try assumption.
+      rewrite run_app. apply done_stays. exact Hd.
+Qed.
+
+(* inner call completed (ok / error): over ANY schedule the call stays pending, with the result in hand,
+   until its next poll, which returns that result; nothing else resolves it (no Timeout, however late) *)
+Lemma result_any_schedule c i dl o evs2 : forall evs1,
+  cs (run c evs1) i = Active dl -> gate (run c evs1) i = Some o -> o <> OPanic ->
+  (forall e, In e evs2 -> e <> Drop i) ->
+  let s2 := run c (evs1 ++ evs2) in
+  (cs s2 i = Active dl /\ gate s2 i = Some o /\ ~ In (Poll i) evs2) \/
+  (exists p q, evs2 = p ++ Poll i :: q /\ ~ In (Poll i) p /\
+     snd (step c (run c (evs1 ++ p)) (Poll i)) = result i o /\ cs s2 i = Done).
+Proof.
+  induction evs2 as [|e t IH]; intros evs1 Hc Hg Ho Hq s2; unfold s2.
+  - left. rewrite app_nil_r. repeat split; try assumption. intros [].
+  - pose proof (Hq e (or_introl eq_refl)) as Hnd.
+    assert (Hq' : forall e', In e' t -> e' <> Drop i) by (intros e' Hin; apply Hq; right; exact Hin).
+    destruct (ev_eq_poll e i) as [->|Hne].
+    + right. exists [], t. split; [reflexivity|]. split; [intros []|]. rewrite app_nil_r.
+      destruct (result_now c evs1 i o Hg Ho) as (H1 & H2 & _).
+      { destruct (cancel c); [left|right]; (split; [reflexivity|]); eauto. }
+      split; [exact H1|]. rewrite run_cons_app, run_app. apply done_stays. rewrite run_snoc. exact H2.
+    + rewrite run_cons_app.
+      destruct (quiet_step c (run c evs1) e i Hnd Hne) as [Hcore _].
+      { left. unf. rewrite Hg. discriminate. }
+      unfold core in Hcore. injection Hcore as H1 _ H3 _.
+      assert (Hc' : cs (run c (evs1 ++ [e])) i = Active dl) by (rewrite run_snoc; unf; congruence).
+      assert (Hg' : gate (run c (evs1 ++ [e])) i = Some o) by (rewrite run_snoc; unf; congruence).
+      destruct (IH (evs1 ++ [e]) Hc' Hg' Ho Hq') as [(Ha & Hb & Hn)|(p & q & -> & Hp0 & Hp1 & Hp2)].
+      * left. repeat split; try assumption. intros [Hin|Hin]; [congruence|exact (Hn Hin)].
+      * right. exists (e :: p), q. split; [reflexivity|].
+        rewrite <- app_assoc in Hp1. cbn [app] in Hp1. repeat split; try assumption.
+        intros [Hin|Hin]; [congruence|exact (Hp0 Hin)].
+Qed.
+
+Lemma deadline_bounds c i a :
+  a + tmo c i <= deadline c i a /\ deadline c i a < a + tmo c i + Z.max 1 (gran c) /\
+  (gran c <= 1 -> deadline c i a = a + tmo c i) /\
+  (forall b, a <= b -> deadline c i a <= deadline c i b).
+Proof.
+  split; [apply deadline_ge|]. split; [apply deadline_lt|]. split; [apply deadline_exact|].
+  apply deadline_mono.
+Qed.
+
+Lemma no_timeout_before_timer c evs i :
+  let s := run c evs in
+  r (snd (step c s (Poll i))) = 3 -> gate s i <> Some OPanic ->
+  exists a, arrival (step_st c s (Poll i)) i = Some a /\
+    a + tmo c i <= deadline c i a /\ deadline c i a <= now s.
+Proof.
+  intros s Hr Hg. pose proof (linv_run c evs i) as HL. fold s in HL.
+  rewrite step_poll in Hr. cbn [snd] in Hr.
+  destruct (l_timeout_inv c i _ _ HL Hr Hg) as (_ & _ & a & Ha & Hd).
+  exists a. rewrite step_st_poll. unf. rewrite callers_on_same.
+  split; [exact Ha|]. split; [apply deadline_ge|exact Hd].
+Qed.
+
 (* ---------- non-vacuity: the hypotheses of the theorems are met by reachable states ---------- *)
-Definition c_cancel : cfg := {| cancel := true; tmo := fun i => if Nat.eqb i 0 then 10 else 25 |}.
-Definition c_nocancel : cfg := {| cancel := false; tmo := fun i => if Nat.eqb i 0 then 10 else 25 |}.
+Definition c_cancel : cfg := {| cancel := true; tmo := fun i => if Nat.eqb i 0 then 10 else 25; gran := 1 |}.
+Definition c_nocancel : cfg := {| cancel := false; tmo := fun i => if Nat.eqb i 0 then 10 else 25; gran := 1 |}.
 
 (* inner result strictly before the deadline: delivered at the next poll, both modes *)
 Example ex_result_before_cancel :
@@ -688,4 +1336,45 @@ Proof. vm_compute. repeat split; reflexivity. Qed.
 Example ex_nocancel_panic_is_timeout :
   let s := run c_nocancel [Poll 0; Advance 2; Complete 0 OPanic] in
   now s = 2 /\ snd (step c_nocancel s (Poll 0)) = timed_out.
+Proof. vm_compute. repeat split; reflexivity. Qed.
+
+Ltac walk_splits pre H tac :=
+  repeat (let x := fresh "x" in destruct pre as [|x pre];
+     [ cbn in H; try discriminate H; tac
+     | cbn in H; try discriminate H; injection H as -> H ]).
+
+Definition ex_evs : list ev :=
+  [Poll 0; Advance 4; Poll 1; Advance 6; Poll 0; Advance 3; Complete 1 OOk; Poll 1; Advance 30].
+
+Example ex_prompt_punctual :
+  prompt c_cancel 0 ex_evs /\ punctual c_cancel 0 ex_evs /\
+  prompt c_nocancel 1 ex_evs /\ punctual c_nocancel 1 ex_evs /\
+  r (snd (step c_cancel (run c_cancel [Poll 0; Advance 4; Poll 1; Advance 6]) (Poll 0))) = 3 /\
+  now (run c_cancel [Poll 0; Advance 4; Poll 1; Advance 6]) = deadline c_cancel 0 0 /\
+  snd (step c_nocancel (run c_nocancel [Poll 0; Advance 4; Poll 1; Advance 6; Poll 0; Advance 3; Complete 1 OOk])
+         (Poll 1)) = result 1 OOk /\
+  arrival (run c_cancel ex_evs) 0%nat = Some 0 /\ cs (run c_cancel ex_evs) 0%nat = Done.
+Proof.
+  unfold prompt, polled_when_woken, punctual, ex_evs.
+  repeat split; try (vm_compute; reflexivity).
+  - intros pre e e' post H Hw.
+    symmetry in H. walk_splits pre H ltac:(injection H as -> -> _; vm_compute in Hw; first [discriminate Hw|reflexivity]).
+  - intros pre d post dl H Hc Hlt.
+    symmetry in H. walk_splits pre H ltac:(try discriminate H; injection H as -> _; vm_compute in Hc; try discriminate Hc;
+                            injection Hc as <-; vm_compute; discriminate).
+  - intros pre e e' post H Hw.
+    symmetry in H. walk_splits pre H ltac:(injection H as -> -> _; vm_compute in Hw; first [discriminate Hw|reflexivity]).
+  - intros pre d post dl H Hc Hlt.
+    symmetry in H. walk_splits pre H ltac:(try discriminate H; injection H as -> _; vm_compute in Hc; try discriminate Hc;
+                            injection Hc as <-; vm_compute; discriminate).
+Qed.
+
+(* microsecond unit: a 1500 us timeout armed at 0 fires at the 2 ms tick (tokio's timer wheel) *)
+Definition c_us : cfg := {| cancel := true; tmo := fun _ => 1500; gran := 1000 |}.
+Example ex_us_tick :
+  deadline c_us 0 0 = 2000 /\
+  snd (step c_us (run c_us [Poll 0; Advance 1999]) (Poll 0)) = pending /\
+  woken (run c_us [Poll 0; Advance 1999; Poll 0; Advance 1]) 0%nat = true /\
+  snd (step c_us (run c_us [Poll 0; Advance 1999; Poll 0; Advance 1]) (Poll 0)) = timed_out /\
+  deadline c_us 0 500 = 2000 /\ deadline c_cancel 0 7 = 17.
 Proof. vm_compute. repeat split; reflexivity. Qed.
